@@ -528,6 +528,10 @@ func c09Run(c *fw.Ctx) error {
 	for _, e := range []string{".a )", ".a ) | .b", ".a = 5 )", ".a ]", ".a }", ") .a", "( .a ) )", "[ .a ] ]", ".a | ( .b ) )"} {
 		do(c09Case{Kind: "reject", A: e}, "accepted/surplus-closing-bracket", 6e6)
 	}
+	// brackets that balance in number but not in order, or not in kind
+	for _, e := range []string{".a )(", ".a ) (", ")( .a", ".a ][", ".a }{", ".a ) | ( .b", "( .a ]", "[ .a )", "{ \"k\": .a ]", ".a | ) .b (", ".a )( | .b", "( .a ) )(", ".a ] [ 0"} {
+		do(c09Case{Kind: "reject", A: e}, "accepted/brackets-out-of-order", 6e6)
+	}
 	// rejection: binary operators with a missing operand
 	for _, o := range ops {
 		for pi, p := range []string{"%s .a", ".a %s", "( %s .a )", "( .a %s )", ".a %s %s .b", "[ .a %s ]", ".a | %s .b", ".a %s | .b", "select( %s .a )", ".a .b %s", "%s .a .b", "1 2 %s", "%s 1 2"} {
